@@ -1148,6 +1148,9 @@ impl CanonicalizeContext {
 						}
 					}
 					let mathml = if element_name == "mmultiscripts" {clean_mmultiscripts(mathml).unwrap()} else {mathml};
+					if element_name == "mmultiscripts" && name(&mathml) != "mmultiscripts" {
+						return Some(mathml);	// all the scripts were 'none': only the (already cleaned) base is left
+					}
 					if !is_chemistry_off(mathml) {
 						let likely_chemistry = likely_adorned_chem_formula(mathml);
 						// debug!("likely_chemistry={}, {}", likely_chemistry, mml_to_string(&mathml));
